@@ -125,3 +125,18 @@ def overlap_rejection(res) -> bool:
         if k.startswith("Gt:len[(&:") and k.endswith(")]") and (bool(e["outcome"]) ^ bool(e.get("key_neg"))):
             return True
     return False
+
+
+def loop_overlap_rejection(res) -> bool:
+    """A `raise` executed inside an abstract loop (element-wise check) whose guarding test asks whether a key of one collection belongs to another,
+    before any differentiation / write of the path."""
+    first = min([e["seq"] for e in res.events if e["kind"] in ("autograd", "grad_write") and "seq" in e] or [10 ** 9])
+    prev = None
+    seq = 0
+    for e in res.events:
+        seq = e.get("seq", seq)
+        if e["kind"] == "decision":
+            prev = e
+        elif e["kind"] == "raise" and prev is not None and prev.get("outcome") is None and "(&:" in (prev.get("key") or "") and seq < first:
+            return True
+    return False
